@@ -510,7 +510,7 @@ static bool prepareBase(verif::Run& run, Sut& S, int presc, int lockBodyP, int l
 
 int main(int argc, char** argv) {
     verif::Run run("C09", argc, argv);
-    run.setDeadline(900, 5400);
+    run.setDeadline(900, 3600);
     if (const char* mv = getenv("C09_MAXV")) run.maxViolsPerKey = atoi(mv);
     const bool th = run.thorough();
     const int vs = (int)(((run.seed % 3) + 3) % 3);
